@@ -162,8 +162,9 @@ CLAIMED = {
              "get_known_services exactly the advertised instance (same name, addresses, ports and attribute map with absent / "
              "empty / non-empty values distinguished) at every instant before the TTL has elapsed and nothing afterwards; the "
              "ingest filter keeps exactly the records that are not the discoverer's own and are strictly below the watched "
-             "service; unescape (escape s) = s for all byte strings. PARTIAL: sequences of announcements from several peers and "
-             "re-announcements are covered by the DISC slice (model vs implementation, independent python oracle).",
+             "service; after announcements from any number of different peers it lists exactly those whose TTL has not elapsed; "
+             "unescape (escape s) = s for all byte strings. PARTIAL: re-announcements of an instance already heard are covered by "
+             "the DISC slice (model vs implementation, independent python oracle).",
         technique="Coq proof (composition of the attribute / TXT round trip, the compressed packet round trip and the filter characterisation) + model/implementation correspondence on announcement sequences",
         ref="DESIGN.md section 6, C15"),
     "C16": dict(
